@@ -50,6 +50,8 @@ def run_traces(ck, jobs, out, precs=("d",), variant="verif", check_id=None, keep
                 ck.violation(key, "real factorization did not complete normally (%s): %s" % (st, pipe.job_line(j)), {"job": j, "precision": prec})
                 continue
             cfg, res, nl, kinds = pipe.trace_info(j["out"])
+            if r:
+                ck.model(r.get("distinct", 0), r.get("generated", 0))     # states TLC explored while validating this trace
             if cfg.get("overflow"):
                 ck.notes["traces_truncated_inconclusive"] = ck.notes.get("traces_truncated_inconclusive", 0) + 1
                 continue
